@@ -16,6 +16,8 @@
 #include <fcppt/optional/reference.hpp>
 #include <fcppt/reference_impl.hpp>
 
+#include <optional>
+
 namespace c08
 {
 namespace
@@ -135,12 +137,15 @@ template <std::size_t N> void at_optional_all()
   using grid_t = igrid<N>;
   for (A3 const &sz : tuples(N, 0, max_extent(N), 1))
   {
-    grid_t grid = make_grid<N>(sz);
-    grid_t const &cgrid = grid;
+    std::optional<grid_t> holder; // built inside the first announced case of this size (fcppt code runs in the ctor)
     for (A3 const &p : margin_positions(N, sz))
     {
       if (!vrt::begin_text(fn.c_str(), fn + " size=" + show(N, sz) + " pos=" + show(N, p)))
         continue;
+      if (!holder)
+        holder.emplace(make_grid<N>(sz));
+      grid_t &grid = *holder;
+      grid_t const &cgrid = grid;
       bool const want = ref_in_range(N, sz, p);
       bool edge = false;
       for (std::size_t i = 0; i < N; ++i)
@@ -173,14 +178,17 @@ template <std::size_t N> void pos_ref_sub(unsigned part, unsigned nparts)
   using min_t = g::min<S, N>;
   using sup_t = g::sup<S, N>;
   ll const m = max_minsup(N);
-  std::vector<A3> const mins = tuples(N, 0, m, 0);
   unsigned si = 0;
   for (A3 const &sz : tuples(N, 0, max_extent(N), 1))
   {
     if (si++ % nparts != part)
       continue;
-    grid_t grid = make_grid<N>(sz);
-    grid_t const &cgrid = grid;
+    std::optional<grid_t> holder; // built inside the first announced case of this size
+    // min and sup range over a margin of one around the grid (components 0..extent+1, capped by the global bound)
+    A3 hi{0, 0, 0};
+    for (std::size_t i = 0; i < N; ++i)
+      hi[i] = std::min(sz[i] + 1, m);
+    std::vector<A3> const mins = tuples_upto(N, hi);
     for (A3 const &mn : mins)
     {
       if (vrt::out_of_time())
@@ -196,6 +204,10 @@ template <std::size_t N> void pos_ref_sub(unsigned part, unsigned nparts)
           continue;
         if (!vrt::begin_text(fn.c_str(), fn + " size=" + show(N, sz) + " min=" + show(N, mn) + " sup=" + show(N, sp)))
           continue;
+        if (!holder)
+          holder.emplace(make_grid<N>(sz));
+        grid_t &grid = *holder;
+        grid_t const &cgrid = grid;
         vrt::nontrivial(nontrivial_range(N, mn, sp, ref.size()));
         vrt::maybe_sample();
         if (ref.size() >= 2)
